@@ -14,7 +14,7 @@ use serde_json::{json, Value};
 use std::cell::Cell;
 use std::time::Duration;
 
-pub const RULE: &str = "command scripts restricted to depth-limited searches: 1..6 rounds of 'position ...' / 'go depth d' (d in 1..4, pre-screened in-process under a node cap), interleaved with isready, positions from the small-position mixture incl. consecutive positions of one game (so the table, killers and history carry over and matter), optionally ucinewgame at generated points. Oracle 1 (run-to-run differential): the same script in R separate processes (each draws its own Zobrist keys and HashMap seeds; R = 3 quick / 8 thorough) gives byte-identical stdout after deleting the 'time' and 'nps' fields of info lines (depth, score, nodes, pv, bestmove and line order stay). Oracle 2 (fresh-equivalence, metamorphic): for prefix · ucinewgame · suffix the output after ucinewgame equals the output of suffix alone in a new process. Large searches: a few scripts from the start position (0..3 opening plies) searched to depth 6..8 (sized from a depth-5 probe to a few million nodes, i.e. hundreds of thousands of table entries), optionally followed by a second search two plies on, R concurrent runs. New-game generator: the new game revisits a position of the old one (same or one ply deeper search), or the old game is a knight-shuffle game from the start position (positions next to the start position occur 2-3 times) and the new game begins with a bare 'go depth d' on the start position ucinewgame sets up. Non-trivial = >=2 searches of which a later one follows an earlier one in the same game (oracle 1) / prefix contains >=1 search (oracle 2); distinct by script text.";
+pub const RULE: &str = "command scripts restricted to depth-limited searches: 1..6 rounds of 'position ...' / 'go depth d' (d in 1..4, pre-screened in-process under a node cap), interleaved with isready, positions from the small-position mixture incl. consecutive positions of one game (so the table, killers and history carry over and matter), optionally ucinewgame at generated points. Oracle 1 (run-to-run differential): the same script in R separate processes (each draws its own Zobrist keys and HashMap seeds; R = 3 quick / 8 thorough) gives byte-identical stdout after deleting the 'time' and 'nps' fields of info lines (depth, score, nodes, pv, bestmove and line order stay). Oracle 2 (fresh-equivalence, metamorphic): for prefix · ucinewgame · suffix the output after ucinewgame equals the output of suffix alone in a new process. Large searches: a few scripts from the start position (0..3 opening plies) searched to depth 6..8 (sized from a depth-5 probe to a few million nodes, i.e. hundreds of thousands of table entries), optionally followed by a second search two plies on, R concurrent runs. New-game generator: the new game revisits a position of the old one (same or one ply deeper search), or the old game is a knight-shuffle game from the start position (positions next to the start position occur 2-3 times) and the new game begins with a bare 'go depth d' on the start position ucinewgame sets up. Engine-played games (parts 'games', 'newgame-games'): the script a GUI would have sent while the engine played a game against itself on one engine (position restated + go depth 1..4 per ply, 3..14 plies, from endings with a decisive advantage and small positions: forced mates, mate scores in the table, terminal positions), judged by oracle 1, and by oracle 2 with that game as the old game and the same game (or its tail) as the new one. Non-trivial = >=2 searches of which a later one follows an earlier one in the same game (oracle 1) / prefix contains >=1 search (oracle 2); distinct by script text.";
 
 thread_local! {
     static RUNS: Cell<usize> = Cell::new(3);
@@ -307,6 +307,107 @@ fn part_newgame(bytes: &[u8], stats: &mut Stats) -> Verdict {
     Ok(())
 }
 
+/// A game played out by the engine itself (in-process, one engine, node-capped): the script a GUI
+/// would have sent — position (whole game restated) and `go depth d` for every ply, the answer
+/// played.  From endings with a decisive advantage and small positions, so that forced mates, mate
+/// scores in the table and terminal positions occur.  Returns the command lines and whether a
+/// search reported a forced mate.
+fn gen_engine_game(s: &mut Src, max_plies: usize) -> (Vec<String>, bool, usize) {
+    use flsrc::uci::Flounder;
+    let start = if s.chance(60) { crate::props::c03::g_decisive(s) } else { gen::g_small(s).0 };
+    let base = format!("position fen {}", start.fen(0, 1));
+    let mut fl = Flounder::new();
+    let mut moves: Vec<String> = Vec::new();
+    let mut cur = start.clone();
+    let mut lines = Vec::new();
+    let mut mate = false;
+    let mut searches = 0;
+    for _ in 0..max_plies {
+        if cur.legal_moves().is_empty() {
+            break;
+        }
+        let d = 1 + s.weighted(&[20, 30, 30, 20]) as u8;
+        let mut cmd = base.clone();
+        if !moves.is_empty() {
+            cmd.push_str(" moves ");
+            cmd.push_str(&moves.join(" "));
+        }
+        let r = std::panic::catch_unwind(std::panic::AssertUnwindSafe(|| {
+            fl.verif_handle_command(&cmd);
+            fl.verif_searcher().verif_set_hard_cap(Some(150_000));
+            let _ = fl.verif_take_bestmove_lines();
+            fl.verif_handle_command(&format!("go depth {}", d));
+            let best = fl.verif_take_bestmove_lines();
+            let score = fl.verif_searcher().verif_timer().verif.infos.borrow().last().map(|i| i.1);
+            (best, score)
+        }));
+        let Ok((best, score)) = r else { break };
+        lines.push(cmd);
+        lines.push(format!("go depth {}", d));
+        searches += 1;
+        if score.map(|x| x.abs() >= 32767).unwrap_or(false) {
+            mate = true;
+        }
+        let Some(mv) = best.first().and_then(|l| l.split_whitespace().nth(1)).map(|x| x.to_string()) else { break };
+        // mostly the answer, sometimes another legal move
+        let m = if s.chance(85) { cur.find_uci(&mv) } else { gen::choose_move(s, &cur, &cur.legal_moves()) };
+        let Some(m) = m else { break };
+        moves.push(m.uci());
+        cur = cur.make(m);
+    }
+    (lines, mate, searches)
+}
+
+/// Oracle 1 on engine-played games.
+fn part_games(bytes: &[u8], stats: &mut Stats) -> Verdict {
+    let mut s = Src::new(bytes);
+    let n = 3 + s.below(12);
+    let (mut lines, mate, searches) = gen_engine_game(&mut s, n);
+    if searches == 0 {
+        stats.exclude("no search in the generated game");
+        return Ok(());
+    }
+    // now and then an isready in between
+    if s.chance(30) {
+        let at = s.below(lines.len() + 1);
+        lines.insert(at, "isready".into());
+    }
+    let runs = RUNS.with(|c| c.get());
+    let first = compare_runs(&lines, runs, Duration::from_secs(60), stats)?;
+    stats.class("engine_played_games");
+    if mate {
+        stats.class("engine_played_games_with_a_forced_mate_reported");
+    }
+    if searches >= 3 {
+        stats.nontrivial(&lines);
+    }
+    stats.sample(|| json!({"oracle": "run-to-run (engine-played game)", "script": lines, "normalised_output_lines": first.len()}));
+    Ok(())
+}
+
+/// Oracle 2 with an engine-played game as the old game; the new game is that same game again (every
+/// command of it, or its tail), so that everything the old game left behind would be consulted.
+fn part_newgame_games(bytes: &[u8], stats: &mut Stats) -> Verdict {
+    let mut s = Src::new(bytes);
+    let n = 3 + s.below(10);
+    let (prefix, mate, searches) = gen_engine_game(&mut s, n);
+    if searches == 0 {
+        stats.exclude("no search in the generated game");
+        return Ok(());
+    }
+    let rounds = prefix.len() / 2;
+    let from = if s.chance(40) { 0 } else { s.below(rounds) };
+    let suffix: Vec<String> = prefix[2 * from..].to_vec();
+    compare_newgame(&prefix, &suffix, 1, stats)?;
+    stats.class("new_game_replays_an_engine_played_old_game");
+    if mate {
+        stats.class("old_engine_played_game_reported_a_forced_mate");
+    }
+    stats.nontrivial(&(prefix.clone(), from));
+    stats.sample(|| json!({"oracle": "fresh-equivalence (engine-played game)", "prefix": prefix, "suffix": suffix}));
+    Ok(())
+}
+
 /// Large searches (millions of nodes, hundreds of thousands of table entries): whatever depends on
 /// how full the tables are (capacity limits, replacement, growth) only shows at this scale.
 /// The runs of one script execute concurrently.
@@ -461,6 +562,23 @@ pub fn run(tier: Tier, seed: u64, known: &Known) -> PropRun {
         run.failure = fl;
         return run;
     }
+    let part = Part { name: "games", cases: tier.pick(200, 5_000), min_len: 24, max_len: 400, max_shrink: 40, threads: threads() };
+    let (st, fl) = run_part(&part, seed, known, |b, st| {
+        RUNS.with(|c| c.set(runs));
+        part_games(b, st)
+    });
+    run.stats.merge(st);
+    if fl.is_some() {
+        run.failure = fl;
+        return run;
+    }
+    let part = Part { name: "newgame-games", cases: tier.pick(150, 4_000), min_len: 24, max_len: 400, max_shrink: 40, threads: threads() };
+    let (st, fl) = run_part(&part, seed, known, part_newgame_games);
+    run.stats.merge(st);
+    if fl.is_some() {
+        run.failure = fl;
+        return run;
+    }
     // few, large searches; the runs of a script are concurrent, so few worker threads
     let part = Part { name: "heavy", cases: tier.pick(3, 48), min_len: 24, max_len: 200, max_shrink: 4, threads: tier.pick(3, 5) };
     let (st, fl) = run_part(&part, seed, known, |b, st| {
@@ -492,6 +610,8 @@ pub fn replay(part: &str, bytes: &[u8], case: &Value, stats: &mut Stats) -> Verd
     }
     match part {
         "newgame" => part_newgame(bytes, stats),
+        "games" => part_games(bytes, stats),
+        "newgame-games" => part_newgame_games(bytes, stats),
         "inprocess" => part_inprocess(bytes, stats),
         "heavy" => part_heavy(bytes, stats),
         _ => part_runs(bytes, stats),
